@@ -36,6 +36,8 @@ def cases(rng, tier):
         out.append(S.scenario_case(S.gen_transaction(rng, big=(i % 10 == 0)), 'transaction'))
     for spec in fixed_grid(rng):
         out.append(S.scenario_case(spec, 'single-fault-grid'))
+    for _ in range(400 if tier == 'thorough' else 60):
+        out.append(S.scenario_case(S.gen_request_tail(rng), 'request-tail'))
     # two faults over every pair of frames of a short segmented transfer (seeded slice in quick)
     nodes = S.two_nodes(know=False, retries=1, apduTimeout=1000, segTimeout=500)
     req = {'t': 0, 'src': 1, 'dst': 2, 'len': 70, 'service': 12, 'resp': ['complex', 70], 'resp_delay': 0}
@@ -59,7 +61,10 @@ def direct(rng, tier, focus=()):
     big = tier == 'thorough'
     fams = [('transaction', lambda r: S.gen_transaction(r, big=r.random() < 0.1), 80000 if big else 2500),
             ('concurrent', lambda r: S.gen_concurrent(r), 3000 if big else 120),
-            ('capability', lambda r: S.gen_capability(r), 8000 if big else 300)]
+            ('capability', lambda r: S.gen_capability(r), 8000 if big else 300),
+            ('request-tail', lambda r: S.gen_request_tail(r), 6000 if big else 600),
+            ('bidirectional', lambda r: S.gen_bidirectional(r), 2000 if big else 200),
+            ('parked-answers', lambda r: S.gen_park_flush(r), 1000 if big else 100)]
     failures, stats = S.direct_families(rng, fams, S.check_c04, focus)
     for spec in fixed_grid(rng):
         tr, fs = S.run_checked(spec, S.check_c04)
